@@ -106,6 +106,9 @@ def fibStep (st : FibSt) (op : String) (args : List String) : Option (FibSt × S
   | "teardown", [id] => do
     let p ← st.pods.lookup id
     pure ({ host := teardown p st.host, pods := st.pods.filter (·.1 ≠ id) }, "ok")
+  | "sync", ids => do
+    let ps ← ids.mapM fun id => st.pods.lookup id
+    pure ({ st with host := ruleSync st.host ps }, "ok")
   | "rules", [] =>
     let rs := (st.host.rules.filter fun r => r != mainRule).map ruleLine
     some (st, join (rs.mergeSort fun a b => decide (a ≤ b)))
